@@ -23,6 +23,7 @@ OL_CLASS_LOADER: _ol_reserved_name = "__ol_loader_{}"
 OL_CLASS_MEMBER_KEY: _ol_reserved_name = "__ol_key_{}"
 OL_CLASS_MEMBER_VALUE: _ol_reserved_name = "__ol_value_{}"
 OL_CLASS_DECORATOR: _ol_reserved_name = "__ol_decorator_{}"
+OL_CLASS_HEADER_TMP: _ol_reserved_name = "__ol_clsarg_{}"
 OL_IMPORT_TMP: _ol_reserved_name = "__ol_mod_{}"
 
 
